@@ -33,6 +33,7 @@ Fails(e) == CASE e.ev = "reset" -> <<>>
               [] e.ev = "end" -> EndFails
               [] e.ev = "desync" -> <<"C10.lock">>       \* a registry access did not pass lock-acquire / access / release hook points in order
               [] e.ev = "crash" -> <<"C10.lock">>        \* the Go runtime aborted the process: unsynchronised map access / lock misuse
+              [] e.ev = "hang" -> <<e.prop \o ".hang">>    \* a call that never returned (recorded by the watchdog of the harness)
               [] OTHER -> <<"unknown-event">>
 Init == l = 1 /\ nfail = 0 /\ reg = <<>> /\ readers = {} /\ writer = "none" /\ seen = <<>> /\ results = <<>> /\ exp = <<>>
 Next == /\ l <= Len(Tr)
